@@ -9,7 +9,8 @@ whether the program had to be killed) is compared with the extracted model given
 trajectory and schedule; the property's own statement is evaluated on what the implementation
 returned (every frame's order parameter recomputed from the file + index it references with
 the engine's own calculate_order, first frame, stop rule, success flag, retrace, no live
-child, raise on failure).
+child, no live process of the external program — also when the configured command is a
+launcher script that runs the program as its child —, raise on failure).
 """
 import importlib.util  # noqa: F401
 import itertools
@@ -27,21 +28,31 @@ ENGINES_IN = ["ase", "turtlemd", "plugin"]
 META = {
     "id": "C12",
     "level": "proof",
-    "technique": "Coq theorems over executable models of the engines' polling/pairing loops and of the add_to_path stop rule (all order streams, all arrival schedules) + lock-step of the extracted model against the real engine classes driven through fake MD programs under hand-shake-synchronised schedules (LAMMPS, CP2K, GROMACS) and in-process (ASE, TurtleMD, plug-in) + direct oracle (recompute every frame's order parameter from the file it references)",
+    "technique": "Coq theorems over executable models of the engines' polling/pairing loops and of the add_to_path stop rule (all order streams, all arrival schedules) + lock-step of the extracted model against the real engine classes driven through fake MD programs under hand-shake-synchronised schedules (LAMMPS, CP2K, GROMACS; program started directly and through launcher scripts) and in-process (ASE, TurtleMD, plug-in) + direct oracle (recompute every frame's order parameter from the file it references)",
     "text": ("Unbounded theorems (any order function, interfaces, limit, trajectory, arrival schedule, exit code) about executable models of "
              "EngineBase.add_to_path/propagate (prefix until the first frame outside or the maxlen-th, success iff outside, first frame = given "
              "point), of the LAMMPS polling loop (any schedule gives the stop-rule prefix of the un-chunked trajectory, frame k paired with box k "
              "and config index k; refutation witness for the old pop() pairing), of the CP2K loop (two readers, min(len) pairing), of the GROMACS "
              "TRR polling state machine (any sequence of observed file sizes; refutation witness for the double velocity negation with "
-             "reverse=True), of the ASE/TurtleMD/plug-in subcycle loop, of 'non-zero exit without a stop never returns normally', and of "
-             "backward-retraces-forward for abstract reversible dynamics. The models are tied to /repo by running the real engine classes against "
+             "reverse=True), of the ASE/TurtleMD/plug-in subcycle loop, of 'non-zero exit without a stop never returns normally', of "
+             "backward-retraces-forward for abstract reversible dynamics, and of process groups (killpg stops every process of the group, hence the "
+             "program a launcher leading the group has started; signalling the leader alone does not: C12_signal_leader_only_refuted). The models are tied to /repo by running the real engine classes against "
              "fake lmp/cp2k/gmx executables (real file formats, synchronised arrival schedules incl. half-written frames, SIGTERM, exit codes, "
              "varying boxes) and in-process (ASE harmonic velocity Verlet, TurtleMD Langevin double well, lattice plug-in) and comparing with the "
-             "extracted model; the statement itself is evaluated on every returned path."),
+             "extracted model; the statement itself is evaluated on every returned path. Clause 'the external program is stopped when "
+             "propagation ends': for every external engine the configured command is, in part of the scenarios, a launcher (sh wrapper script "
+             "that runs the fake program as ITS child, in the foreground or in the background + wait, without exec, and passes the exit status "
+             "on), under hand-shake schedules, failing programs and as a free-running 120-frame program with an early crossing; after propagate "
+             "has returned or raised, no process started for that propagation (direct child, launcher, program behind the launcher, re-parented "
+             "or not) may be alive after a grace period of 3 s and nothing may write into the exe directory any more."),
     "note": ("Engines covered by the correspondence: LAMMPS, CP2K, GROMACS (real engine classes against fake lmp/cp2k/gmx executables), ASE, "
              "TurtleMD, plug-in (in-process); AMS is not covered. Trusted: Coq kernel; extraction + OCaml driver; the fake programs stand for "
              "the real ones (file format and timing contract only); kernel-level process/signal behaviour is observed (process table, SIGTERM "
-             "marker), not proved. Byte-level readers are C13's (a frame is visible or not). The stop rule carried by the model is the current "
+             "marker), not proved. The processes of one propagation are identified by the control-file path in their environment "
+             "(/proc/<pid>/environ: inherited through the launcher, independent of parent and process group), so a program that outlives "
+             "its launcher is found; a survivor is a VIOLATION with the scenario as replay (and, the SIGTERM marker being absent, also a "
+             "model/implementation disagreement on the model's PKilled state); survivors are killed by the check. Launchers that exec the "
+             "program or forward signals themselves behave like the direct start and are not generated. Byte-level readers are C13's (a frame is visible or not). The stop rule carried by the model is the current "
              "one (success kept when the crossing frame is also the maxlen-th, fix d6ed295); the shared EngineM.add_to_path is the older rule and "
              "is linked by C12_contract_old_rule_is_EngineM. Recorded leads are model parameters: fixL2 (LAMMPS pop(0), repaired in /repo), fixL3 "
              "(GROMACS double velocity negation) and fixL14 (GROMACS wait loop never polls the process); the variant /repo exhibits is detected by "
@@ -618,6 +629,7 @@ def _run(ctx, runner, H, I, sysharness, rng, wdroot):
         "py/plugins/fake_lmp.py, fake_cp2k.py, fake_gmx.py, fakemd.py: stand for LAMMPS/CP2K/GROMACS (file formats and timing contract only)",
         "py/c12_harness.py (SyncSleep hand-shake replacing the engine modules' `sleep`), py/c12_inproc.py (reference dynamics run directly with ASE/TurtleMD)",
         "ASE, TurtleMD, numpy internals; kernel process/signal semantics (observed through /proc and a SIGTERM marker file)",
+        "/bin/sh for the launcher scripts (run_<engine>_fg.sh / _bg.sh written per case); /proc/<pid>/environ to find every process of a propagation",
     ]
     ctx.assumptions += [
         "the fake programs write complete frames in the real formats and flush only at schedule points; real programs may differ in buffering (byte-level tearing is C13's property)",
